@@ -92,12 +92,36 @@ def replay(case):
             out = scared.aes.selection_functions.encrypt.FirstSubBytes(words=sel)(plaintext=pt)
             exp = full if sel is None or sel is Ellipsis else full[:, :, sel]
             return dict(reproduced=out.shape != exp.shape or not np.array_equal(out, exp))
+        if k == 'tags':
+            r = tags_check(rnd)
+            return dict(reproduced=bool(r), detail=r)
     except Exception as e:
         return dict(reproduced=True, detail='raises %r' % (e,))
     return dict(reproduced=None)
 
+def tags_check(rnd):
+    """extra metadata fields (also ones called data / key / plaintext) must not change hypotheses nor the expected key"""
+    import scared
+    for ns, cls, tagarg, deftag in (('aes', 'FirstSubBytes', 'plaintext_tag', 'plaintext'), ('aes', 'LastSubBytes', 'ciphertext_tag', 'ciphertext'), ('des', 'FirstSboxes', 'plaintext_tag', 'plaintext')):
+        mod = getattr(scared, ns).selection_functions.encrypt; w = 16 if ns == 'aes' else 8
+        for custom in (False, True):
+            tag = 'my_text' if custom else deftag; ktag = 'my_key' if custom else 'key'
+            kw = {tagarg: tag, 'key_tag': ktag} if custom else {}
+            sf = getattr(mod, cls)(**kw)
+            data = np.array([[rnd.randrange(256) for _ in range(w)] for _ in range(3)], dtype='uint8'); other = np.array([[rnd.randrange(256) for _ in range(w)] for _ in range(3)], dtype='uint8')
+            key = np.array([rnd.randrange(256) for _ in range(w)], dtype='uint8'); okey = np.array([rnd.randrange(256) for _ in range(w)], dtype='uint8')
+            meta = {tag: data, 'data': other, 'foo': other, ktag: key}
+            if custom: meta[deftag] = other; meta['key'] = okey
+            if not np.array_equal(sf(**meta), sf(**{tag: data})): return '%s.%s (%s tags): a metadata field other than %r changes the hypotheses' % (ns, cls, 'custom' if custom else 'default', tag)
+            if not np.array_equal(sf.compute_expected_key(**meta), sf.compute_expected_key(**{ktag: key})): return '%s.%s (%s tags): a metadata field other than %r changes the expected key' % (ns, cls, 'custom' if custom else 'default', ktag)
+    return None
+
 def bounded(seed, tier):
     rnd = random.Random(seed); fails = []; ev = 0
+    try: r = tags_check(rnd)
+    except Exception as e: r = 'raises %r' % (e,)
+    ev += 12
+    if r: fails.append(dict(kind='tags', detail=r))
     aes_cls = {'encrypt': ['FirstAddRoundKey', 'LastAddRoundKey', 'FirstSubBytes', 'LastSubBytes', 'DeltaRLastRounds'], 'decrypt': ['FirstAddRoundKey', 'LastAddRoundKey', 'FirstSubBytes', 'LastSubBytes', 'DeltaRFirstRounds']}
     des_cls = ['FirstAddRoundKey', 'LastAddRoundKey', 'FirstSboxes', 'LastSboxes', 'FeistelRFirstRounds', 'FeistelRLastRounds', 'DeltaRFirstRounds', 'DeltaRLastRounds']
     reps = 1 if tier == 'quick' else 5
